@@ -41,20 +41,25 @@ package kv
 //@ modifies nothing
 //@ ensures err == nil ==> it != nil
 
-// A write batch as a ghost set `present` of the keys it makes present (Put) or absent
-// (Delete) on top of the database: the last operation on a key wins. Values are not
+// A write batch as two ghost sets on top of the database: `present`, the keys it makes
+// present (Put), and `deleted`, the keys it removes (Delete); the last operation on a
+// key wins. Values are not
 // modelled. A failed operation leaves the set unspecified.
 //
 //@ func WriteBatch.Put(recv, key, value) (err)
 //@ trusted
-//@ modifies ghset(present, recv)
+//@ modifies ghset(present, recv), ghset(deleted, recv)
 //@ ensures err == nil ==> forall k string :: ghset(present, recv, k) <==> (k == key || old(ghset(present, recv, k)))
+//@ ensures err == nil ==> forall k string :: ghset(deleted, recv, k) <==> (k != key && old(ghset(deleted, recv, k)))
 
 //@ func WriteBatch.Delete(recv, key) (err)
 //@ trusted
-//@ modifies ghset(present, recv)
+//@ modifies ghset(present, recv), ghset(deleted, recv)
 //@ ensures err == nil ==> forall k string :: ghset(present, recv, k) <==> (k != key && old(ghset(present, recv, k)))
-//@ ensures err != nil ==> forall k string :: ghset(present, recv, k) <==> old(ghset(present, recv, k))
+//@ ensures err == nil ==> forall k string :: ghset(deleted, recv, k) <==> (k == key || old(ghset(deleted, recv, k)))
+//@ ensures err != nil ==> forall k string :: (ghset(present, recv, k) <==> old(ghset(present, recv, k))) && (ghset(deleted, recv, k) <==> old(ghset(deleted, recv, k)))
+//@ ensures !errIs(err, ErrKeyNotFound)
+//@ note a batch delete is blind: it does not look the key up, so it cannot report that the key is missing
 
 // What a batch sees under a key (the database plus its own earlier operations), as a
 // ghost predicate of the batch object and the key.
@@ -190,7 +195,7 @@ package kv
 
 //@ func UpdateOperationCallback.OnPut(recv, batch, req, se) (status, err)
 //@ trusted
-//@ modifies ghset(present, batch)
+//@ modifies ghset(present, batch), ghset(deleted, batch)
 //@ note the callbacks (sessions, secondary indexes) write index/shadow keys into the batch; their own contracts are in package server (C15)
 
 // ---------------------------------------------------------------- notification batches (C17)
@@ -228,7 +233,7 @@ package kv
 //@ ensures internal ==> d.versionIdTracker.v == old(d.versionIdTracker.v)
 //@ ensures err == nil && internal && old(len(putReq.SequenceKeyDelta)) == 0 ==> ghset(present, batch, putReq.Key) && putReq.Key == old(putReq.Key)
 //@ ensures err == nil && internal && old(len(putReq.SequenceKeyDelta)) == 0 ==> forall k string :: old(ghset(present, batch, k)) ==> ghset(present, batch, k)
-//@ modifies d.versionIdTracker.v, putReq.Key, ghset(present, batch), ghost(seqUpdates, d.sequenceWaiterTracker), fields(proto.StorageEntry), fields(map[string]*proto.Notification), cells(uint64), cells(int64), cells(int)
+//@ modifies d.versionIdTracker.v, putReq.Key, ghset(present, batch), ghset(deleted, batch), ghost(seqUpdates, d.sequenceWaiterTracker), fields(proto.StorageEntry), fields(map[string]*proto.Notification), cells(uint64), cells(int64), cells(int)
 
 // ---------------------------------------------------------------- sequence waiters (C16)
 
@@ -286,11 +291,11 @@ package kv
 
 //@ func WriteBatch.DeleteRange
 //@ trusted
-//@ modifies ghset(present, recv)
+//@ modifies ghset(present, recv), ghset(deleted, recv)
 
 //@ func UpdateOperationCallback.OnDeleteWithEntry(recv, batch, key, value) (err)
 //@ trusted
-//@ modifies ghset(present, batch), ghost(deleteCallbacks, recv)
+//@ modifies ghset(present, batch), ghset(deleted, batch), ghost(deleteCallbacks, recv)
 //@ ensures ghost(deleteCallbacks, recv) == old(ghost(deleteCallbacks, recv)) + 1
 
 //@ func Deserialize
@@ -312,13 +317,13 @@ package kv
 //@ func db.applyDeleteRange(d, batch, notifications, delReq, updateOperationCallback) (res, err)
 //@ property C15 C12 C13
 //@ requires batch != nil && delReq != nil && updateOperationCallback != nil && d.log != nil && (notifications != nil ==> nbOk(notifications))
-//@ loop 0 modifies ghost(remaining, it), ghost(deleteCallbacks, updateOperationCallback), ghset(present, batch), fields(proto.StorageEntry), fresh
+//@ loop 0 modifies ghost(remaining, it), ghost(deleteCallbacks, updateOperationCallback), ghset(present, batch), ghset(deleted, batch), fields(proto.StorageEntry), fresh
 //@ loop 0 invariant (validKeys == nil || fresh(validKeys)) && fresh(it)
 //@ loop 0 invariant it != nil && ghost(remaining, it) >= 0 && ghost(deleteCallbacks, updateOperationCallback) + ghost(remaining, it) == old(ghost(deleteCallbacks, updateOperationCallback)) + rangeCount(batch, delReq.StartInclusive, delReq.EndExclusive)
-//@ loop 1 modifies ghset(present, batch), fresh
+//@ loop 1 modifies ghset(present, batch), ghset(deleted, batch), fresh
 //@ loop 1 invariant ghost(deleteCallbacks, updateOperationCallback) == old(ghost(deleteCallbacks, updateOperationCallback)) + rangeCount(batch, delReq.StartInclusive, delReq.EndExclusive)
 //@ ensures err == nil ==> ghost(deleteCallbacks, updateOperationCallback) == old(ghost(deleteCallbacks, updateOperationCallback)) + rangeCount(batch, delReq.StartInclusive, delReq.EndExclusive)
-//@ modifies ghset(present, batch), ghost(deleteCallbacks, updateOperationCallback), fields(proto.StorageEntry), fields(map[string]*proto.Notification)
+//@ modifies ghset(present, batch), ghset(deleted, batch), ghost(deleteCallbacks, updateOperationCallback), fields(proto.StorageEntry), fields(map[string]*proto.Notification)
 
 //@ func notifications.Deleted(n, key)
 //@ property C17
@@ -330,7 +335,7 @@ package kv
 
 //@ func UpdateOperationCallback.OnDelete(recv, batch, key) (err)
 //@ trusted
-//@ modifies ghset(present, batch)
+//@ modifies ghset(present, batch), ghset(deleted, batch)
 
 // applyDelete: a version conflict or an absent key is a per-operation status and writes
 // nothing; no request content makes it panic (in particular with notifications off).
@@ -339,7 +344,7 @@ package kv
 //@ property C12 C13
 //@ requires batch != nil && delReq != nil && updateOperationCallback != nil && d.log != nil && (notifications != nil ==> nbOk(notifications))
 //@ ensures err == nil ==> res != nil
-//@ modifies ghset(present, batch), fields(proto.StorageEntry), fields(map[string]*proto.Notification)
+//@ modifies ghset(present, batch), ghset(deleted, batch), fields(proto.StorageEntry), fields(map[string]*proto.Notification)
 
 // ---------------------------------------------------------------- notification retention (C17)
 
@@ -412,7 +417,7 @@ package kv
 //@ property C17 C07
 //@ requires batch != nil && notifications != nil
 //@ ensures err == nil ==> ghset(present, batch, nbKey(notifications.batch.Offset)) && forall k string :: old(ghset(present, batch, k)) ==> ghset(present, batch, k)
-//@ modifies ghset(present, batch)
+//@ modifies ghset(present, batch), ghset(deleted, batch)
 
 //@ func db.addASCIILong(d, key, value, batch, timestamp) (err)
 //@ property C07
@@ -420,7 +425,7 @@ package kv
 //@ requires batch != nil && d.sequenceWaiterTracker != nil && d.log != nil && d.versionIdTracker.v >= -1 && d.versionIdTracker.v < 4611686018427387904
 //@ ensures err == nil ==> ghset(present, batch, key) && forall k string :: old(ghset(present, batch, k)) ==> ghset(present, batch, k)
 //@ ensures d.versionIdTracker.v == old(d.versionIdTracker.v)
-//@ modifies ghset(present, batch), ghost(seqUpdates, d.sequenceWaiterTracker), fields(proto.StorageEntry), fields(map[string]*proto.Notification), cells(uint64), cells(int64), cells(int)
+//@ modifies ghset(present, batch), ghset(deleted, batch), ghost(seqUpdates, d.sequenceWaiterTracker), fields(proto.StorageEntry), fields(map[string]*proto.Notification), cells(uint64), cells(int64), cells(int)
 
 // applyWriteRequest: one response per operation, puts first, then deletes, then range
 // deletes; a notification batch exists exactly when notifications are enabled and is the
@@ -433,9 +438,9 @@ package kv
 //@ requires forall i int :: 0 <= i && i < len(b.Puts) ==> b.Puts[i] != nil
 //@ requires forall i int :: 0 <= i && i < len(b.Deletes) ==> b.Deletes[i] != nil
 //@ requires forall i int :: 0 <= i && i < len(b.DeleteRanges) ==> b.DeleteRanges[i] != nil
-//@ loop 0 modifies d.versionIdTracker.v, ghset(present, batch), ghost(seqUpdates, d.sequenceWaiterTracker), ghost(deleteCallbacks, updateOperationCallback), fields(proto.PutRequest), fields(proto.StorageEntry), fields(map[string]*proto.Notification), cells(uint64), cells(int64), cells(int), fresh
-//@ loop 1 modifies d.versionIdTracker.v, ghset(present, batch), ghost(seqUpdates, d.sequenceWaiterTracker), ghost(deleteCallbacks, updateOperationCallback), fields(proto.PutRequest), fields(proto.StorageEntry), fields(map[string]*proto.Notification), cells(uint64), cells(int64), cells(int), fresh
-//@ loop 2 modifies d.versionIdTracker.v, ghset(present, batch), ghost(seqUpdates, d.sequenceWaiterTracker), ghost(deleteCallbacks, updateOperationCallback), fields(proto.PutRequest), fields(proto.StorageEntry), fields(map[string]*proto.Notification), cells(uint64), cells(int64), cells(int), fresh
+//@ loop 0 modifies d.versionIdTracker.v, ghset(present, batch), ghset(deleted, batch), ghost(seqUpdates, d.sequenceWaiterTracker), ghost(deleteCallbacks, updateOperationCallback), fields(proto.PutRequest), fields(proto.StorageEntry), fields(map[string]*proto.Notification), cells(uint64), cells(int64), cells(int), fresh
+//@ loop 1 modifies d.versionIdTracker.v, ghset(present, batch), ghset(deleted, batch), ghost(seqUpdates, d.sequenceWaiterTracker), ghost(deleteCallbacks, updateOperationCallback), fields(proto.PutRequest), fields(proto.StorageEntry), fields(map[string]*proto.Notification), cells(uint64), cells(int64), cells(int), fresh
+//@ loop 2 modifies d.versionIdTracker.v, ghset(present, batch), ghset(deleted, batch), ghost(seqUpdates, d.sequenceWaiterTracker), ghost(deleteCallbacks, updateOperationCallback), fields(proto.PutRequest), fields(proto.StorageEntry), fields(map[string]*proto.Notification), cells(uint64), cells(int64), cells(int), fresh
 //@ loop 0 invariant (res.Puts == nil || fresh(res.Puts)) && (res.Deletes == nil || fresh(res.Deletes)) && (res.DeleteRanges == nil || fresh(res.DeleteRanges))
 //@ loop 0 invariant res != nil && fresh(res) && (notifications == nil || fresh(notifications)) && len(res.Puts) == rangeindex + 1 && len(res.Deletes) == 0 && len(res.DeleteRanges) == 0 && (notifications != nil ==> nbOk(notifications) && notifications.batch.Offset == commitOffset) && (notifications != nil <==> old(d.notificationsEnabled)) && d.versionIdTracker.v >= old(d.versionIdTracker.v) && d.versionIdTracker.v <= old(d.versionIdTracker.v) + rangeindex + 1 && ghost(commits, batch) == old(ghost(commits, batch))
 //@ loop 1 invariant (res.Puts == nil || fresh(res.Puts)) && (res.Deletes == nil || fresh(res.Deletes)) && (res.DeleteRanges == nil || fresh(res.DeleteRanges))
@@ -445,7 +450,7 @@ package kv
 //@ ensures err == nil ==> res != nil && len(res.Puts) == len(b.Puts) && len(res.Deletes) == len(b.Deletes) && len(res.DeleteRanges) == len(b.DeleteRanges)
 //@ ensures err == nil ==> (nb != nil <==> old(d.notificationsEnabled)) && (nb != nil ==> nbOk(nb) && nb.batch.Offset == commitOffset)
 //@ ensures d.versionIdTracker.v >= old(d.versionIdTracker.v) && d.versionIdTracker.v <= old(d.versionIdTracker.v) + len(b.Puts) && ghost(commits, batch) == old(ghost(commits, batch))
-//@ modifies d.versionIdTracker.v, ghset(present, batch), ghost(seqUpdates, d.sequenceWaiterTracker), ghost(deleteCallbacks, updateOperationCallback), fields(proto.PutRequest), fields(proto.StorageEntry), fields(map[string]*proto.Notification), cells(uint64), cells(int64), cells(int)
+//@ modifies d.versionIdTracker.v, ghset(present, batch), ghset(deleted, batch), ghost(seqUpdates, d.sequenceWaiterTracker), ghost(deleteCallbacks, updateOperationCallback), fields(proto.PutRequest), fields(proto.StorageEntry), fields(map[string]*proto.Notification), cells(uint64), cells(int64), cells(int)
 
 // ProcessWrite: one write batch per logged request, committed exactly once and only
 // after it holds the commit offset, the last version id and (when notifications are
